@@ -690,7 +690,7 @@ func c04ErrorPropagation(c *Ctx, r *Report, f *ssa.Function, rule string) {
 			ok2 = false // falls through to the success path
 		}
 		for _, ri := range returnsOf(f) {
-			if !reach[ri.Ret.Block()] || !edgeDominates(from, errEdge, ri.Ret.Block()) {
+			if !reach[ri.At] || !edgeDominates(from, errEdge, ri.At) {
 				continue
 			}
 			last := ri.Vals[len(ri.Vals)-1]
@@ -728,7 +728,7 @@ func c04ErrorPropagation(c *Ctx, r *Report, f *ssa.Function, rule string) {
 			okErr := true
 			nret := 0
 			for _, ri := range returnsOf(f) {
-				if edgeDominates(b, b.Succs[0], ri.Ret.Block()) {
+				if edgeDominates(b, b.Succs[0], ri.At) {
 					nret++
 					if isNilConst(ri.Vals[len(ri.Vals)-1]) {
 						okErr = false
